@@ -246,6 +246,23 @@ class ForwardScheduler(IScheduler):
         percent = reserved / date_available_units
         return date + timedelta(hours=24 * percent)
 
+    def __min_date_from_parents(
+            self,
+            _task: Task,
+            resource_usage: _ResourceUsage,
+            calculated: List[int]
+    ) -> datetime:
+        # A task reached through a dependency link (before its parents were visited) has to wait for
+        # the predecessors of its parents exactly as if it had been reached through the hierarchy.
+        res = self.__start
+        for parent in _task.all_parents:
+            for pred in parent.predecessors:
+                self.__forward_pass(pred, self.__min_date_from_parents(pred, resource_usage, calculated),
+                                    resource_usage, calculated)
+                if pred.end is not None:
+                    res = max(res, pred.end)
+        return res
+
     def __forward_pass(
             self,
             _task: Task,
@@ -257,7 +274,8 @@ class ForwardScheduler(IScheduler):
             return
 
         for pred in _task.predecessors:
-            self.__forward_pass(pred, min_date, resource_usage, calculated)
+            self.__forward_pass(pred, self.__min_date_from_parents(pred, resource_usage, calculated),
+                                resource_usage, calculated)
 
         max_predecessor_ends = max([t.end for t in _task.predecessors if t.end is not None] + [min_date])
 
